@@ -7,12 +7,12 @@ NODE_TB = COMMON_TB + [
 
 CFG = {
     "props": "Props/C04.v",
-    "corr": ["Corr/NodeCorr.v"],
-    "engines": [("node", [])],
+    "corr": ["Corr/NodeCorr.v", "Corr/NetCorr.v"],
+    "engines": [("node", []), ("net", [])],
     "axioms": [],
     "trusted": NODE_TB + ["hypothesis vrec_unchained (unchained digests do not contain the previous signature: crypto/schemes.go DigestBeacon) is a Section hypothesis visible in the theorem statements"],
     "assumptions": ["pairing arithmetic, Lagrange interpolation in Recover and SHA-256 are not modelled (oracles)", "serving side: PublicRand's exact-round rule is modelled in Model/Serve.v; gRPC/HTTP marshalling is not modelled"],
-    "level_text": "C04_accept: in every state every partial for a round beyond next_round(clock) is refused and changes nothing; C04_emissions_not_early_partial: for EVERY event list in which the clock moves forward and ticks are not from the clock's future, every partial the node releases (tick, catch-up sleeper, after restart, across transitions) is for a round <= the current round of its own clock, under the stated premise that the stored head is not ahead of the own clock when a tick is handled; C04_round_le_current_is_timely links rounds to scheduled times (C16); C04_unconditional_refuted shows the premise is needed (a threshold of fast/corrupted peers), recorded as an observation. Tied to the real Handler by the node engine, which stamps every emission with the node's clock; an independent monitor checks time_of_round(r) <= clock for every emission. C04_net_no_future_round: in the abstract network of Proofs/NetTime.v (adversarial partials for any round at any time from fewer than a threshold of corrupted or fast members, honest partials under the node-local rule, Recover needing t distinct signers) no beacon of a future round ever exists and no honest member signs early -- this discharges the carve-out premise at the system level.",
+    "level_text": "C04_accept: in every state every partial for a round beyond next_round(clock) is refused and changes nothing; C04_emissions_not_early_partial: for EVERY event list in which the clock moves forward and ticks are not from the clock's future, every partial the node releases (tick, catch-up sleeper, after restart, across transitions) is for a round <= the current round of its own clock, under the stated premise that the stored head is not ahead of the own clock when a tick is handled; C04_round_le_current_is_timely links rounds to scheduled times (C16); C04_unconditional_refuted shows the premise is needed (a threshold of fast/corrupted peers), recorded as an observation. Tied to the real Handler by the node engine, which stamps every emission with the node's clock; an independent monitor checks time_of_round(r) <= clock for every emission. C04_net_no_future_round: in the abstract network of Proofs/NetTime.v (adversarial partials for any round at any time from fewer than a threshold of corrupted or fast members, honest partials under the node-local rule, Recover needing t distinct signers) no beacon of a future round ever exists and no honest member signs early -- this discharges the carve-out premise at the system level. C04_system_no_future_round (Model/Net.v: any number of honest nodes each running the node-local step that is compared with the real Handler, a wire, an adversary owning the network and fewer than a threshold of share indices, symbolic unforgeability as admissibility of its events): in EVERY reachable state no beacon of a future round exists anywhere, no honest chain holds one, no valid partial of an honest index is early -- the carve-out premise is derived, not assumed. Tied to the code by the system engine (several real Handlers, harness = network + adversary), whose runs are checked admissible (gadm_b, proved sound) and compared node by node.",
     "level_note": "Kernel-checked, no axioms. Trusts the oracle abstraction of BLS (validated by the correspondence with real signatures over 2 schemes quick / 5 thorough), the harness, and the quiescent-step granularity; transport layers are not modelled.",
 }
 
